@@ -114,6 +114,12 @@ fn max_match(es: &[usize], n_obs: usize, used: &[bool], ok: &dyn Fn(usize, usize
 
 /// One-to-one correspondence between expected and observed leaves.
 pub fn check_leaves(expected: &[Leaf], observed: &[ObsLeaf]) -> Vec<Failure> {
+    check_leaves_tolerating(expected, observed, &[])
+}
+
+/// `tolerated`: ranges inside which additional leaves are not counted as invented (repeated
+/// occurrences of a single-valued field, whose value may or may not be converted).
+pub fn check_leaves_tolerating(expected: &[Leaf], observed: &[ObsLeaf], tolerated: &[Range]) -> Vec<Failure> {
     let mut fails = Vec::new();
     let mut used = vec![false; observed.len()];
     let mut matched = vec![false; expected.len()];
@@ -152,6 +158,11 @@ pub fn check_leaves(expected: &[Leaf], observed: &[ObsLeaf]) -> Vec<Failure> {
     }
     for (j, o) in observed.iter().enumerate() {
         if !used[j] {
+            if let Some(sp) = o.span {
+                if tolerated.iter().any(|r| contains(*r, sp)) {
+                    continue;
+                }
+            }
             fails.push(fail("C02.R2", format!("reported leaf corresponds to no mistake or fault: `{}` span={:?}", o.text, o.span)));
         }
     }
